@@ -219,6 +219,12 @@ row("class_member", {"decl": "class {n}_M", "declarations": [
         {"decl": "int m_test +name(test);"},
         {"decl": "{n}_M()"},
     ]}, langs=CXX, wraps=CFP, doc="classes.yaml Class1 m_flag / m_test")
+row("enum_expr", [{"decl": "enum {n}_Access {{ {n}_READ = 1, {n}_WRITE = 2, {n}_RW = {n}_READ + {n}_WRITE }}"},
+                  {"decl": "enum {n}_Level {{ {n}_LO = -3, {n}_MID = ({n}_LO + 7) * 2, {n}_HI }}"},
+                  ],
+    wraps=CF, doc="enum.yaml: enumerators whose value is an expression over earlier enumerators, also as the last one")
+row("enum_expr_scoped", [{"decl": "enum class {n}_Phase {{ SOLID = 10, LIQUID = SOLID * 2, GAS = LIQUID + SOLID }}"}],
+    langs=CXX, wraps=CF, doc="enum.yaml / scope.yaml: scoped enumeration with expression values")
 row("class_enum", {"decl": "class {n}_E", "declarations": [
         {"decl": "enum DIRECTION {{ UP = 2, DOWN, LEFT = 100, RIGHT }};"},
         {"decl": "{n}_E()"},
